@@ -236,6 +236,7 @@ impl<F: Float, R: Rng + Clone, DA: Data<Elem = F>, T, D: Distance<F>>
 
         let mut min_inertia = F::infinity();
         let mut best_centroids = None;
+        let mut best_memberships = Array1::zeros(n_samples);
         let mut memberships = Array1::zeros(n_samples);
         let mut dists = Array1::zeros(n_samples);
 
@@ -246,7 +247,7 @@ impl<F: Float, R: Rng + Clone, DA: Data<Elem = F>, T, D: Distance<F>>
                 self.init_method()
                     .run(self.dist_fn(), self.n_clusters(), observations, &mut rng);
             let mut n_iter = 0;
-            let inertia = loop {
+            loop {
                 update_memberships_and_dists(
                     self.dist_fn(),
                     &centroids,
@@ -261,23 +262,34 @@ impl<F: Float, R: Rng + Clone, DA: Data<Elem = F>, T, D: Distance<F>>
                 centroids = new_centroids;
                 n_iter += 1;
                 if distance < self.tolerance() || n_iter == self.max_n_iterations() {
-                    break dists.sum();
+                    break;
                 }
-            };
+            }
+            // Memberships and inertia of the centroids this run returns (the buffers
+            // filled inside the loop describe the centroids before the last update)
+            update_memberships_and_dists(
+                self.dist_fn(),
+                &centroids,
+                &observations,
+                &mut memberships,
+                &mut dists,
+            );
+            let inertia = dists.sum();
 
             // We keep the centroids which minimize the inertia (defined as the sum of
             // the squared distances of the closest centroid for all observations)
-            // over the n runs of the KMeans algorithm.
+            // over the n runs of the KMeans algorithm, together with their memberships.
             if inertia < min_inertia {
                 min_inertia = inertia;
                 best_centroids = Some(centroids.clone());
+                best_memberships.assign(&memberships);
             }
         }
 
         match best_centroids {
             Some(centroids) => {
                 let mut cluster_count = Array1::zeros(self.n_clusters());
-                memberships
+                best_memberships
                     .iter()
                     .for_each(|&c| cluster_count[c] += F::one());
                 Ok(KMeans {
